@@ -639,8 +639,23 @@ def _text_of(el):
     return "".join(el.itertext())
 
 
+VISUAL_STYLES = ["bold_border", "acquired_lot", "taxable_event", "transparent", "header", "title", "bold"]
+
+
+def data_style(name):
+    """rp2 names a cell style <visual style>_<data style>; the data style is the number format of the cell (fiat, crypto,
+    percent, fiat_unit_4, fiat_unit_7, ...) and is part of what the reader sees, the visual style (colours, borders;
+    may alternate from row to row) is not compared"""
+    if not name:
+        return None
+    for v in VISUAL_STYLES:
+        if name.startswith(v + "_"):
+            return name[len(v) + 1:]
+    return None
+
+
 def ods_cells(path):
-    """-> [(sheet name, [[cell,...],...])]; cell = None | [type, value, formula, text] ; trailing empties trimmed.
+    """-> [(sheet name, [[cell,...],...])]; cell = None | [type, value, formula, text, data style] ; trailing empties trimmed.
     Reads content.xml directly (independent of ezodf)."""
     import xml.etree.ElementTree as ET
     with zipfile.ZipFile(path) as z:
@@ -660,7 +675,7 @@ def ods_cells(path):
                 val = tc.get(OFF + "value") or tc.get(OFF + "date-value") or tc.get(OFF + "string-value") or tc.get(OFF + "boolean-value")
                 fm = tc.get(TAB + "formula")
                 tx = "\n".join(_text_of(p) for p in tc.findall(TXT + "p"))
-                cell = None if (vt is None and fm is None and not tx) else [vt, val, fm, tx]
+                cell = None if (vt is None and fm is None and not tx) else [vt, val, fm, tx, data_style(tc.get(TAB + "style-name"))]
                 if cell is None and crep > 50:
                     crep = 1
                 cells += [cell] * crep
